@@ -748,7 +748,9 @@ def native_cases(f):
         if f["zmask"]:
             mk(base, "kz", ("k", 1), opts=opt | X.OPT["z"])
     if name in ("vpternlogd", "vpternlogq") and base is not None and base[-1][0] == "i":
-        mk(list(base[:-1]) + [("i", 0xCA)], "imm=0xca", opts=opt)
+        # silicon leg: immediates whose two truth-table halves differ in exactly one / in all entries, plus 0xCA (A ? B : C)
+        for imm in (0xCA, 0x01, 0x10, 0x02, 0x20, 0x04, 0x40, 0x08, 0x80, 0x19, 0x6E, 0x7F, 0xF7, 0x0F, 0xF0):
+            mk(list(base[:-1]) + [("i", imm)], "imm=0x%02x" % imm, opts=opt)
     return out
 
 
